@@ -44,7 +44,11 @@ Same(o, ents, size) == o.err = "" /\ o.ents = ents /\ o.size = size
 Consistent(e) == e.pok /\ e.pheight = e.post.height /\ Shape(e.pterm, e.pheight, e.cfg.layers, e.cfg.nk + 1)
 
 C12(e) ==
-  LET n == Normal(e)
+  LET n0 == Normal(e)
+      walk == e.call.op = "walk"
+      n == [n0 EXCEPT !.data = IF walk THEN UpToOff(@) ELSE @]
+      edata == IF walk THEN UpToOff(e.data) ELSE e.data
+      erdata == IF walk THEN UpToOff(e.rdata) ELSE e.rdata
       pre == e.pre
   IN IF e.res = "panic" THEN {}
      ELSE IF e.res = "err" /\ n.res = "ok" THEN
@@ -57,9 +61,9 @@ C12(e) ==
            ELSE {V("an operation that returned an error changed the tree's contents, size or height")})
           \cup (IF ~(Same(e.post, pre.ents, pre.size) /\ e.post.height = pre.height) THEN {}     \* the retry of a changed tree proves nothing
                 ELSE IF e.rres # "ok" THEN {V("the same call fails when retried after the fault has cleared")}
-                ELSE IF e.rdata # n.data \/ ~Same(e.rpost, n.ents, Len(n.ents)) THEN {V("the retried call does not give the normal result")} ELSE {})
+                ELSE IF erdata # n.data \/ ~Same(e.rpost, n.ents, Len(n.ents)) THEN {V("the retried call does not give the normal result")} ELSE {})
      ELSE IF e.res = "ok" /\ n.res = "ok" THEN
-          (IF e.data # n.data \/ ~Same(e.post, n.ents, Len(n.ents)) THEN {V("a fault was swallowed and the operation's result or effect is wrong")} ELSE {})
+          (IF edata # n.data \/ ~Same(e.post, n.ents, Len(n.ents)) THEN {V("a fault was swallowed and the operation's result or effect is wrong")} ELSE {})
      ELSE {}
 
 TFault == /\ l <= Len(Trace)
